@@ -536,7 +536,7 @@ func checkC08(c *hx.Checker) {
 		add("Expand", nil, []*ref.T{data, ref.I64Vec(tg...)}, expe, erre, true, "op", nil, fmt.Sprintf("long-rows %v->%v", et[0], et[1]), "large", "long-rows")
 	}
 	// Concat of many inputs (9, 12, 33), also of different extents on the axis
-	for _, n := range []int{9, 12, 33} {
+	for _, n := range []int{9, 12, 33, 65, 100} {
 		for ax := 0; ax < 2; ax++ {
 			var ins []*ref.T
 			for k := 0; k < n; k++ {
@@ -551,7 +551,7 @@ func checkC08(c *hx.Checker) {
 	// rank-1 int64 tensors (shape arithmetic inside graphs): negative indices, mixed ranks, whole / partial slices
 	{
 		v := ref.I64Vec(5, 6, 7, 8, 9)
-		for _, iv := range [][]int64{{-1}, {-5}, {-2, 0, 4}, {4, -4}, {0}, {-6}, {5}} {
+		for _, iv := range [][]int64{{-1}, {-5}, {-2, 0, 4}, {4, -4}, {0}, {-6}, {5}, {-7}, {-10}, {-11}, {0, -9}, {9}, {10}} {
 			idx := ref.I64Vec(iv...)
 			expg, errg := ref.Gather(v, idx, 0)
 			add("Gather", []hx.Attr{hx.AInt("axis", 0)}, []*ref.T{v, idx}, expg, errg, true, "op", nil, fmt.Sprintf("int64-vector %v", iv), "int64-vector")
@@ -584,6 +584,16 @@ func checkC08(c *hx.Checker) {
 			idx := ref.I64Vec(iv...)
 			expg, errg := ref.Gather(data, idx, 0)
 			add("Gather", []hx.Attr{hx.AInt("axis", 0)}, []*ref.T{data, idx}, expg, errg, true, "op", nil, fmt.Sprintf("index-runs %v", iv[:min(len(iv), 6)]), "large", "index-runs")
+		}
+		// every index from -2*dim-1 to 2*dim on a matrix, alone, as rank-0 index and inside a list
+		for ax, dim := range []int{4, 3} {
+			for iv := -2*dim - 1; iv <= 2*dim; iv++ {
+				m43 := ref.Distinct(ref.F32, []int{4, 3})
+				for _, idx := range []*ref.T{ref.I64Vec(int64(iv)), {DT: ref.I64, Shape: []int{}, V: []uint64{uint64(int64(iv))}}, ref.I64Vec(0, int64(iv))} {
+					expg, errg := ref.Gather(m43, idx, ax)
+					add("Gather", []hx.Attr{hx.AInt("axis", int64(ax))}, []*ref.T{m43, idx}, expg, errg, true, "op", nil, fmt.Sprintf("index-sweep ax=%d idx=%d rank%d", ax, iv, len(idx.Shape)), "index-sweep")
+				}
+			}
 		}
 		small := ref.Distinct(ref.F32, []int{4, 3})
 		for _, iv := range [][]int64{{-1, 0, 1}, {-2, -1, 0}, {0, 1, 2}, {-4, -3, -2, -1, 0, 1, 2, 3}, {3, 2, 1, 0, -1}} {
